@@ -204,6 +204,11 @@ def check_case(ctx, case):
                 ctx.hit("with_in_frame")
             if f["need"].get("by"):
                 ctx.hit("with_by")
+    if len(set((f["need"]["n"], f["need"].get("frame"), f["need"].get("by")) for f in case["frames"] if f["need"]
+               and f["need"].get("frame") not in (None, "me!"))) >= 2 and \
+            len(set((f["need"]["n"], f["need"].get("frame")) for f in case["frames"] if f["need"]
+                    and f["need"].get("frame") not in (None, "me!"))) == 1:
+        ctx.hit("same_frame_different_marks")
     ctx.case([text], nontrivial=stats["taken"] >= 1 and stats["refused"] >= 1,
              sample={"program": text, "expected_active_per_tick": exp[:n], "observed": obs[:n]} if stats["taken"] and stats["refused"] else None)
     for t in range(n):
@@ -249,7 +254,7 @@ def run(ctx):
     n = 16
     ctx.shard([{"cases": cases[i::n]} for i in range(n)], timeout=ctx.pick(300, 1500))
     for k in ("taken", "refused", "same_tick_entry", "same_tick_transit", "before_first_mark", "need_updated", "need_changed",
-              "with_in_frame", "with_by", "guard_refused_marker_transition"):
+              "with_in_frame", "with_by", "guard_refused_marker_transition", "same_frame_different_marks"):
         ctx.floor(k, 20)
 
 
@@ -268,6 +273,14 @@ def random_case(rng, opts, gated=None):
         if far == "next":
             far = names[(names.index(nm) + 1) % nfr]
         frames.append({"name": nm, "far": far, "need": need})
+    if rng.random() < 0.25:
+        # two conditions of the same kind on the same share that name the same frame but use different marks: each mark
+        # must be set on entry to that frame
+        kind = rng.choice(["updated", "changed"])
+        named = rng.choice(names)
+        bys = rng.sample([None, "k", "j"], 2)
+        for f, by in zip(rng.sample(frames, 2), bys):
+            f["need"] = {"n": kind, "path": ".w", "frame": named, "by": by, "neg": False}
     plan = sorted(set((rng.randint(1, TICKS - 2), rng.choice([0, 1, 1, 2])) for _ in range(rng.randint(0, 6))))
     seen = set()
     plan = [p for p in plan if not (p[0] in seen or seen.add(p[0]))]
